@@ -416,7 +416,7 @@ def stream_mix(ka, kb):
     if kb in PLANAR and ka in ("point", "line", "line_segment", "triangle", "rectangle", "disk"):
         mix += ["coplanar"] * 3
     if kb in AXIAL and ka in ("point", "line", "line_segment"):
-        mix += ["axis"] * 2
+        mix += ["axis"] * 4
     if ka == "line_segment" or kb == "line_segment" or "triangle" in (ka, kb):
         mix += ["small"]
     return mix
@@ -492,7 +492,7 @@ def on_axis_prim(rng, ka, B):
     if fr is None:
         return None
     org, n, u, v, size = fr
-    hs = [0.0, 0.5 * size, -size, 2.0 * size, rng.uniform(-2, 2) * size]
+    hs = [0.0, 0.5 * size, -size, 2.0 * size, rng.uniform(-2, 2) * size, rng.uniform(-2, 2) * size, rng.uniform(0.1, 1.5) * size]
     on = lambda h: [org[i] + h * n[i] for i in range(3)]
     if ka == "point":
         return dict(kind="point", p=on(rng.choice(hs)))
@@ -578,7 +578,7 @@ def gen_pair(rng, fn, stream=None):
             if A is None:
                 continue
         elif stream == "axis":
-            mode = rng.choice(["lattice", "random", "random"])
+            mode = rng.choice(["lattice", "random", "random", "random", "random"])
             o = [rng.choice([0.0, 1.0, -2.0]) for _ in range(3)] if mode == "lattice" else [rng.uniform(-5, 5) for _ in range(3)]
             B = gen_prim(rng, kb, mode, o)
             A = on_axis_prim(rng, ka, B)
